@@ -225,6 +225,7 @@ def tlc_trace(module, trace_files, consts=None, timeout=3600, parallel=None):
     import concurrent.futures
     parallel = parallel or min(NCPU, 16)
     cfg_src = os.path.join(TLA, module + ".cfg")
+    tol_out = []
 
     def one(i_tf):
         i, tf = i_tf
@@ -242,6 +243,13 @@ def tlc_trace(module, trace_files, consts=None, timeout=3600, parallel=None):
         except subprocess.TimeoutExpired:
             raise ToolError("TLC trace validation timeout " + tf)
         o = p.stdout
+        tolerated = []
+        for tm in re.finditer(r'<<"TOLERATED", (\d+), "(.*)">>', o):
+            tolerated.append((int(tm.group(1)), _unescape_tla(tm.group(2))))
+        if tolerated:
+            lines = open(tf).read().splitlines()
+            for ln, why in tolerated[:50]:
+                tol_out.append({"file": tf, "line_no": ln, "event": json.loads(lines[ln - 1]), "why": why, "tolerated": True})
         m = re.search(r'<<"TRACE-OK", (\d+)>>', o)
         if m:
             return (int(m.group(1)), None)
@@ -263,11 +271,14 @@ def tlc_trace(module, trace_files, consts=None, timeout=3600, parallel=None):
     accepted = 0
     rejects = []
     with concurrent.futures.ThreadPoolExecutor(max_workers=parallel) as ex:
+        pass
+    with concurrent.futures.ThreadPoolExecutor(max_workers=parallel) as ex:
         for acc, rej in ex.map(one, list(enumerate(trace_files))):
             accepted += acc
             if rej:
                 rejects.append(rej)
-    return accepted, rejects
+    # lines rejected only for tolerated (known-finding) tags: reported like rejects, validation went on past them
+    return accepted, rejects + tol_out
 
 
 def count_lines(path):
